@@ -853,4 +853,214 @@ theorem optTableAlias_content (ts al rest : List Tok) (h : optTableAlias ts = .o
 theorem name_content (name : List Tok) : cont name = pc (namePieces name) := by
   simp [pc, toksOf_namePieces]
 
+theorem factorHead_table_content (c : QCfg) (ts name al rest : List Tok) (h : factorHead c ts = .ok (.table name al rest)) :
+    cont al = pc (aliasPieces al) := by
+  unfold factorHead at h
+  repeat' split at h
+  all_goals first
+    | (simp at h; done)
+    | (rename_i ha _; simp at h; obtain ⟨rfl, rfl, rfl⟩ := h; exact optTableAlias_content _ _ _ ha)
+
+theorem factorHead_paren_content (c : QCfg) (ts rest : List Tok) (lp : Tok) (h : factorHead c ts = .ok (.paren lp rest)) :
+    contentOf lp = none := by
+  unfold factorHead at h
+  split at h
+  · simp at h
+  · split at h
+    · rename_i lp' r hl
+      simp at h; obtain ⟨rfl, rfl⟩ := h
+      unfold eatSym at hl
+      split at hl
+      · split at hl
+        · rename_i hs; simp at hl; obtain ⟨rfl, rfl⟩ := hl
+          unfold Tok.isSym at hs
+          split at hs <;> simp_all [contentOf]
+        · simp at hl
+      · simp at hl
+    · repeat' split at h
+      all_goals simp at h
+
+theorem content_all (c : QCfg) (f : Nat) :
+    (∀ d ts q rest, parseQuery c f d ts = .ok (q, rest) → q.printable = true → cont q.flatten = pc q.pieces) ∧
+    (∀ d prec ts n rest, queryBody c f d prec ts = .ok (n, rest) → n.printable = true → cont n.flatten = pc n.pieces) ∧
+    (∀ d e prec ts n rest, remaining c f d e prec ts = .ok (n, rest) →
+      (e.printable = true → cont e.flatten = pc e.pieces) → n.printable = true → cont n.flatten = pc n.pieces) ∧
+    (∀ d sel ts n rest, contentOf sel = none → parseSelect c f d sel ts = .ok (n, rest) → n.printable = true →
+      cont n.flatten = pc n.pieces) ∧
+    (∀ d conn ts n rest, cont conn.toks = [] → fromItems c f d conn ts = .ok (n, rest) → n.printable = true →
+      cont n.flatten = pc n.pieces) ∧
+    (∀ d b ts k n rest, fromRest c f d b ts = .ok ((k, n), rest) → k.printable = true → n.printable = true →
+      cont k.flatten = pc k.pieces ∧ cont n.flatten = pc n.pieces) := by
+  induction f with
+  | zero => simp [parseQuery, queryBody, remaining, parseSelect, fromItems, fromRest]
+  | succ f ih =>
+    obtain ⟨ihQ, ihB, ihR, ihS, ihF, ihT⟩ := ih
+    refine ⟨?_, ?_, ?_, ?_, ?_, ?_⟩
+    · -- parseQuery
+      intro d ts q rest h hp
+      cases d with
+      | zero => simp [parseQuery] at h
+      | succ d =>
+        simp only [parseQuery] at h
+        split at h
+        · simp at h
+        · split at h
+          · simp at h
+          · rename_i body ts1 hb
+            split at h
+            · simp at h
+            · rename_i qt ts2 ht
+              simp at h; obtain ⟨rfl, rfl⟩ := h
+              simp only [Query.printable, Bool.and_eq_true] at hp
+              simp [Query.flatten, Query.pieces, cont_append, pc_append, ihB _ _ _ _ _ hb hp.1,
+                queryTail_content _ _ _ _ _ _ ht hp.2]
+    · -- queryBody
+      intro d prec ts n rest h hp
+      unfold queryBody at h
+      split at h
+      · simp at h
+      · rename_i t r
+        split at h
+        · rename_i hsel
+          split at h
+          · simp at h
+          · rename_i s ts1 hs
+            exact ihR _ _ _ _ _ _ h (fun hps => ihS _ _ _ _ _ (isKw_content hsel) hs hps) hp
+        · split at h
+          · split at h
+            · simp at h
+            · rename_i q ts1 hq
+              split at h
+              · rename_i ts2
+                refine ihR _ _ _ _ _ _ h (fun hps => ?_) hp
+                simp only [QNode.printable, Bool.and_eq_true] at hps
+                have := ihQ _ _ _ _ hq (by simp [Query.printable, hps.1, hps.2])
+                simp only [Query.flatten, Query.pieces, cont_append, pc_append] at this
+                simp [QNode.flatten, QNode.pieces, cont_cons, cont_append, contentOf_sym, pc_append, pc_cons_symP,
+                  pc_glued, cont_nil, pc_nil, this]
+              · simp at h
+          · split at h <;> simp at h
+    · -- remaining
+      intro d e prec ts n rest h he hp
+      unfold remaining at h
+      split at h
+      · simp at h; obtain ⟨rfl, rfl⟩ := h; exact he hp
+      · rename_i t r
+        split at h
+        · simp at h; obtain ⟨rfl, rfl⟩ := h; exact he hp
+        · rename_i o ho
+          split at h
+          · simp at h; obtain ⟨rfl, rfl⟩ := h; exact he hp
+          · split at h
+            · simp at h
+            · rename_i rr ts1 hb
+              refine ihR _ _ _ _ _ _ h (fun hps => ?_) hp
+              simp only [QNode.printable, Bool.and_eq_true] at hps
+              have hop : ∀ ps, pc (opPiece o :: ps) = pc ps := fun ps => by
+                have := pc_append [opPiece o] ps; simpa [pc_opPiece] using this
+              simp [QNode.flatten, QNode.pieces, cont_append, cont_cons, setOpOf_content ho, setQuant_content,
+                pc_append, hop, pc_quantPieces, pc_spaced, he hps.1, ihB _ _ _ _ _ hb hps.2]
+    · -- parseSelect
+      intro d sel ts n rest hsel h hp
+      simp only [parseSelect] at h
+      split at h
+      · simp at h
+      · rename_i hd ts1 hh
+        split at h
+        · rename_i kw r hk
+          split at h
+          · simp at h
+          · rename_i fr ts2 hf
+            split at h
+            · simp at h
+            · rename_i tl ts3 ht
+              simp at h; obtain ⟨rfl, rfl⟩ := h
+              simp only [QNode.printable, Bool.and_eq_true] at hp
+              have h1 := selHead_content _ _ _ _ hsel _ _ _ hh hp.1.1
+              have h2 := ihF _ (.from kw) _ _ _ (by simp [Conn.toks, cont_cons, eatKw_content hk, cont_nil]) hf hp.1.2
+              have h3 := selTail_content _ _ _ _ _ _ ht hp.2
+              simp only [QNode.flatten, QNode.pieces, cont_append, h2, h3, h1]
+              simp only [pc_append, List.append_assoc]
+        · split at h
+          · simp at h
+          · rename_i tl ts3 ht
+            simp at h; obtain ⟨rfl, rfl⟩ := h
+            simp only [QNode.printable, Bool.and_eq_true] at hp
+            have h1 := selHead_content _ _ _ _ hsel _ _ _ hh hp.1.1
+            have h3 := selTail_content _ _ _ _ _ _ ht hp.2
+            simp only [QNode.flatten, QNode.pieces, cont_append, h3, h1]
+            simp only [pc_append, List.append_assoc, cont_nil, List.nil_append]
+    · -- fromItems
+      intro d conn ts n rest hconn h hp
+      simp only [fromItems] at h
+      split at h
+      · simp at h
+      · split at h
+        · simp at h
+        · rename_i name al r hfh
+          split at h
+          · simp at h
+          · rename_i k rs ts' hr
+            simp at h; obtain ⟨rfl, rfl⟩ := h
+            simp only [QNode.printable, Bool.and_eq_true] at hp
+            obtain ⟨a1, a2⟩ := ihT _ _ _ _ _ _ hr hp.1 hp.2
+            simp [QNode.flatten, QNode.pieces, cont_append, pc_append, hconn, pc_connPieces, pc_spaced,
+              ← name_content, factorHead_table_content _ _ _ _ _ hfh, a1, a2]
+        · rename_i lp r hfh
+          split at h
+          · simp at h
+          · simp at h
+          · simp at h
+          · rename_i q r1 hq
+            split at h
+            · rename_i r2
+              split at h
+              · simp at h
+              · rename_i al r3 ha
+                split at h
+                · simp at h
+                · split at h
+                  · simp at h
+                  · rename_i k rs ts' hr
+                    simp at h; obtain ⟨rfl, rfl⟩ := h
+                    simp only [QNode.printable, Bool.and_eq_true] at hp
+                    obtain ⟨a1, a2⟩ := ihT _ _ _ _ _ _ hr hp.1.2 hp.2
+                    have hq' := ihQ _ _ _ _ hq (by simp [Query.printable, hp.1.1.1, hp.1.1.2])
+                    simp only [Query.flatten, Query.pieces, cont_append, pc_append] at hq'
+                    simp only [QNode.flatten, QNode.pieces, cont_append, cont_cons, pc_append, hconn, pc_connPieces,
+                      factorHead_paren_content _ _ _ _ hfh, contentOf_sym, pc_cons_symP, pc_glued,
+                      optTableAlias_content _ _ _ ha, a1, a2, Option.toList, List.nil_append, List.append_nil,
+                      cont_nil]
+                    rw [hq']
+                    simp only [pc_nil, List.nil_append, List.append_nil]
+            · simp at h
+    · -- fromRest
+      intro d b ts k n rest h hpk hpn
+      simp only [fromRest] at h
+      split at h
+      · simp at h
+      · rename_i k1 ts1 hc
+        split at h
+        · simp at h
+        · rename_i jk toks r hj
+          split at h
+          · simp at h
+          · rename_i rs ts2 hf
+            simp at h; obtain ⟨⟨rfl, rfl⟩, rfl⟩ := h
+            exact ⟨optCstr_content _ _ _ _ _ _ _ hc hpk,
+              ihF _ (.join jk toks) _ _ _ (by simpa [Conn.toks] using joinHead_content _ _ _ _ hj) hf hpn⟩
+        · split at h
+          · rename_i r
+            split at h
+            · simp at h; obtain ⟨⟨rfl, rfl⟩, rfl⟩ := h
+              exact ⟨optCstr_content _ _ _ _ _ _ _ hc hpk, by simp [QNode.flatten, QNode.pieces, cont_cons, contentOf_sym, cont_nil, pc_nil]⟩
+            · split at h
+              · simp at h
+              · rename_i rs ts2 hf
+                simp at h; obtain ⟨⟨rfl, rfl⟩, rfl⟩ := h
+                exact ⟨optCstr_content _ _ _ _ _ _ _ hc hpk,
+                  ihF _ (.comma (.sym .Comma)) _ _ _ (by simp [Conn.toks, cont_cons, contentOf_sym, cont_nil]) hf hpn⟩
+          · simp at h; obtain ⟨⟨rfl, rfl⟩, rfl⟩ := h
+            exact ⟨optCstr_content _ _ _ _ _ _ _ hc hpk, rfl⟩
+
 end SqlVerif.Query
